@@ -126,7 +126,7 @@ func VH_C06_CreatorAfterEditingItself() {
 	s2 := vNewClient(srv, "me")
 	other := vNewClient(srv, "other")
 	otherAccess := other.Account.Access
-	am := &vStubAM{getResult: &hotline.Account{Login: "me", Name: "me", Password: "H:pw", Access: cc.Account.Access}}
+	am := &vStubAM{getResult: &hotline.Account{Login: "me", Name: "me", Password: "H:zzpw", Access: cc.Account.Access}}
 	srv.AccountManager = am
 	vAssume(vBit(cc.Account.Access, hotline.AccessModifyUser))
 	newAccess := vBytesN("access_after_edit", 8)
